@@ -191,6 +191,10 @@ pub struct SimPeer {
 	pub claimed_height: u64,
 	pub outbound: bool,
 	pub undecodable: u64,
+	/// the simulated side's Codec refused a frame header written by the node
+	pub refused_frame: bool,
+	in_attachment: bool,
+	attachment_left: u64,
 	/// the node's `Peer` object for this connection
 	pub node_peer: Option<Arc<Peer>>,
 }
@@ -239,6 +243,29 @@ impl SimPeer {
 	fn read_to_pong(&mut self, budget: Duration) -> ReadEnd {
 		let t0 = Instant::now();
 		loop {
+			// a frame above the limit for its type (possible with the tiny block weight of the test
+			// parameters) would be refused by the simulated side's own Codec and leave it out of step:
+			// such a frame is taken off the socket here and only noted
+			if !self.in_attachment {
+				let mut hdr = [0u8; 11];
+				let _ = self.w.set_read_timeout(Some(Duration::from_millis(2000)));
+				if let Ok(11) = self.w.peek(&mut hdr) {
+					let mut l8 = [0u8; 8];
+					l8.copy_from_slice(&hdr[3..11]);
+					let len = u64::from_be_bytes(l8);
+					if len > crate::wiresim::doc_limit(hdr[2]) * 4 && len < (1 << 30) {
+						use std::io::Read;
+						let mut sink = vec![0u8; 11 + len as usize];
+						let _ = self.w.set_read_timeout(Some(Duration::from_secs(30)));
+						if self.w.read_exact(&mut sink).is_err() {
+							self.alive = false;
+							return ReadEnd::Closed;
+						}
+						self.refused_frame = true;
+						continue;
+					}
+				}
+			}
 			let (res, _) = self.codec.read();
 			match res {
 				Ok(Message::Pong(_)) => return ReadEnd::Pong,
@@ -254,10 +281,16 @@ impl SimPeer {
 					self.inbox.push(Message::TxHashSetArchive(a));
 					if size > 0 {
 						self.codec.expect_attachment(Arc::new(meta));
+						self.in_attachment = true;
+						self.attachment_left = size;
 					}
 				}
-				Ok(Message::Attachment(_, Some(bytes))) => {
+				Ok(Message::Attachment(u, Some(bytes))) => {
 					self.attachment.extend_from_slice(&bytes[..]);
+					if u.left == 0 {
+						self.in_attachment = false;
+					}
+					self.attachment_left = u.left as u64;
 				}
 				Ok(m) => self.inbox.push(m),
 				Err(grin_p2p::Error::Connection(e)) => {
@@ -274,10 +307,17 @@ impl SimPeer {
 						}
 					}
 				}
-				Err(_) => {
+				Err(grin_p2p::Error::Serialization(_)) => {
 					// a frame the simulated side cannot decode (the whole frame was consumed): counted, the
 					// stream stays in step
 					self.undecodable += 1;
+				}
+				Err(_) => {
+					// a frame header the simulated side's own Codec refuses (e.g. a frame above the limit
+					// for its type): the stream cannot be followed any further
+					self.refused_frame = true;
+					self.alive = false;
+					return ReadEnd::Closed;
 				}
 			}
 		}
@@ -345,6 +385,9 @@ pub fn connect_inbound(node: &NetNode, id: usize, td: u64, height: u64, caps: Ca
 		claimed_height: height,
 		outbound: false,
 		undecodable: 0,
+		refused_frame: false,
+		in_attachment: false,
+		attachment_left: 0,
 		node_peer: Some(peer),
 	})
 }
@@ -397,6 +440,9 @@ pub fn connect_outbound(node: &NetNode, id: usize, td: u64, height: u64, caps: C
 		claimed_height: height,
 		outbound: true,
 		undecodable: 0,
+		refused_frame: false,
+		in_attachment: false,
+		attachment_left: 0,
 		node_peer: Some(peer),
 	})
 }
@@ -1262,6 +1308,21 @@ pub fn replay(rp: &Value) -> Result<Option<Violation>, String> {
 				v
 			}))
 		}
+		Some("pibd") => {
+			let seed = rp["case_seed"].as_u64().ok_or("case_seed missing")?;
+			let long = rp["long"].as_bool().unwrap_or(false);
+			let fat = rp["fat"].as_bool().unwrap_or(false);
+			let quiet = rp["quiet"].as_bool().unwrap_or(false);
+			let rs = rp["run_seed"].as_u64().ok_or("run_seed missing")?;
+			let faulty = rp["faulty"].as_bool().unwrap_or(false);
+			let mut world = crate::pibdsim::build_world(seed, long, fat, quiet)?;
+			let out = pibd_net_run(&world, rs, "pibdnet-replay", faulty, long);
+			world.cleanup();
+			Ok(out.violation.map(|mut v| {
+				v.replay = rp.clone();
+				v
+			}))
+		}
 		other => Err(format!("unknown netsim mode {:?}", other)),
 	}
 }
@@ -1316,4 +1377,468 @@ impl NetLink {
 		}
 		self.node.shutdown();
 	}
+}
+
+// ------------------------------------------------------------------------------------------
+// scenario C: state sync (PIBD) between two real nodes, each with its complete p2p stack; the
+// simulator is the wire between them (C16)
+
+pub struct PibdNetOutcome {
+	pub violation: Option<Violation>,
+	pub log: Vec<String>,
+	pub rounds: u64,
+	pub probes: BTreeMap<String, u64>,
+	pub faults: BTreeMap<String, u64>,
+}
+
+/// Serving node S (all blocks, optionally compacted) and receiving node R (headers through Headers
+/// messages, then segments). R's requests are made the way `StateSync::continue_pibd` makes them -
+/// through the real `Peer::send_*_segment_request` of R's outbound connection -, travel over R's
+/// socket to the simulator, are written into S's socket, answered by S's real Protocol /
+/// NetToChainAdapter / Segmenter, and the answers travel back into R's socket: R's real Protocol,
+/// NetToChainAdapter::receive_*_segment and Desegmenter take them. While faults are on, the wire
+/// drops, duplicates, delays (reorders) and corrupts answers (one flipped byte).
+pub fn pibd_net_run(world: &World, seed: u64, tag: &str, faulty: bool, compact_server: bool) -> PibdNetOutcome {
+	use grin_chain::SyncStatus;
+	use grin_core::core::{SegmentIdentifier, SegmentType, SegmentTypeIdentifier};
+	install_panic_recorder();
+	grin_util::verif::set_pacing_off(true);
+	grin_chain::pibd_params::verif::set_segment_heights(255, 255, 255, 255);
+	let mut rng = SimRng::new(seed).fork("pibd-net");
+	let mut out = PibdNetOutcome {
+		violation: None,
+		log: vec![format!("seed {} faulty {} compact_server {}", seed, faulty, compact_server)],
+		rounds: 0,
+		probes: BTreeMap::new(),
+		faults: BTreeMap::new(),
+	};
+	macro_rules! bump {
+		($m:expr, $k:expr) => {
+			*$m.entry($k.to_string()).or_insert(0) += 1
+		};
+	}
+	let v = |key: &str, what: String| Violation {
+		key: format!("C16:net-{}", key),
+		what,
+		replay: Value::Null,
+	};
+	let dir_s = fresh_dir(&format!("{}-srv", tag));
+	let dir_r = fresh_dir(&format!("{}-rcv", tag));
+	let server = match NetNode::assemble(&dir_s, world.genesis.clone(), PoolConfig::default(), false) {
+		Ok(n) => n,
+		Err(e) => {
+			out.violation = Some(v("harness-assemble", e));
+			return out;
+		}
+	};
+	let receiver = match NetNode::assemble(&dir_r, world.genesis.clone(), PoolConfig::default(), false) {
+		Ok(n) => n,
+		Err(e) => {
+			out.violation = Some(v("harness-assemble", e));
+			return out;
+		}
+	};
+	let winner = world.winner();
+	let path = world.path_to(winner);
+	let mut result: Option<Violation> = None;
+	let mut sp: Vec<SimPeer> = vec![]; // [0] = connection into S, [1] = connection of R
+	'run: loop {
+		for id in &path {
+			if *id == 0 {
+				continue;
+			}
+			if let Err(e) = server.chain.process_block(world.blocks[*id].block.clone(), world.opts) {
+				result = Some(v("harness-server-block", format!("serving node refused honest block #{}: {:?}", id, e)));
+				break 'run;
+			}
+			// compaction 15 blocks before the tip: the archive header then stays above the compaction
+			// horizon (with mainnet parameters it always does)
+			if compact_server && world.blocks[*id].height + 15 == world.blocks[world.winner()].height {
+				if let Err(e) = server.chain.compact() {
+					result = Some(v("harness-server-compact", format!("{:?}", e)));
+					break 'run;
+				}
+				bump!(out.probes, "net_server_compacted");
+			}
+		}
+		server.take_events();
+		let (wtd, wh) = (world.blocks[winner].total_difficulty, world.blocks[winner].height);
+		match connect_inbound(&server, 0, 1, 0, Capabilities::default()) {
+			Ok(p) => sp.push(p),
+			Err(e) => {
+				result = Some(v("harness-connect", e));
+				break 'run;
+			}
+		}
+		match connect_outbound(&receiver, 1, wtd, wh, Capabilities::default()) {
+			Ok(mut p) => {
+				p.slot = 1;
+				sp.push(p)
+			}
+			Err(e) => {
+				result = Some(v("harness-connect", e));
+				break 'run;
+			}
+		}
+		// header sync over the wire: the sync loop's status, then Headers messages in chunks
+		let hh = match receiver.chain.header_head() {
+			Ok(t) => t,
+			Err(e) => {
+				result = Some(v("digest", format!("{:?}", e)));
+				break 'run;
+			}
+		};
+		receiver.sync.update(SyncStatus::HeaderSync {
+			sync_head: hh,
+			highest_height: wh,
+			highest_diff: Difficulty::from_num(wtd),
+		});
+		let headers: Vec<BlockHeader> = path.iter().filter(|i| **i != 0).map(|i| world.blocks[*i].block.header.clone()).collect();
+		let chunk = *rng.pick(&[7usize, 32, 33, 100, 512]);
+		for c in headers.chunks(chunk) {
+			sp[1].send(Type::Headers, Headers { headers: c.to_vec() });
+			if let Err(e) = barrier(&mut sp[1..2], Some(0)) {
+				result = Some(v("connection-stuck", format!("receiver, during header sync: {}", e)));
+				break 'run;
+			}
+		}
+		let hh = receiver.chain.header_head().map(|t| t.last_block_h).ok();
+		if hh != Some(world.blocks[winner].hash) {
+			result = Some(v("header-sync-failed", format!("after all Headers messages the receiver's header head is {:?}, not the tip {}", hh, world.blocks[winner].hash)));
+			break 'run;
+		}
+		bump!(out.probes, "headers_synced_over_the_wire");
+		let ah = match receiver.chain.txhashset_archive_header_header_only() {
+			Ok(h) => h,
+			Err(e) => {
+				result = Some(v("archive-header", format!("{:?}", e)));
+				break 'run;
+			}
+		};
+		let archive_id = world.id_of_hash(&ah.hash()).unwrap_or(0);
+		out.log.push(format!("archive header #{} h{}", archive_id, ah.height));
+		receiver.sync.update_pibd_progress(false, false, 0, 1, &ah);
+		let des = match receiver.chain.desegmenter(&ah) {
+			Ok(d) => d,
+			Err(e) => {
+				result = Some(v("desegmenter", format!("{:?}", e)));
+				break 'run;
+			}
+		};
+		// frames on their way from S to R: (deliver not before round, type, frame bytes, corrupted?)
+		let mut wire: Vec<(u64, String, Vec<u8>, bool)> = vec![];
+		let mut corrupt_delivered = 0u64;
+		let fault_rounds = if faulty { 40u64 } else { 0 };
+		let max_rounds = fault_rounds + 80;
+		let mut bitmap_ready = false;
+		let mut done = false;
+		let mut rounds = 0u64;
+		while rounds < max_rounds {
+			rounds += 1;
+			let faults_on = rounds <= fault_rounds;
+			// the sync loop's turn: apply, look at progress, ask for what is missing
+			let mut wanted: Vec<SegmentTypeIdentifier> = vec![];
+			{
+				let mut guard = des.write();
+				let d = match guard.as_mut() {
+					Some(d) => d,
+					None => {
+						result = Some(v("desegmenter", "no desegmenter".into()));
+						break 'run;
+					}
+				};
+				if let Err(e) = d.apply_next_segments() {
+					if corrupt_delivered == 0 {
+						result = Some(v("apply-failed", format!("round {}: apply_next_segments failed on honest segments: {:?}", rounds, e)));
+						break 'run;
+					}
+					bump!(out.probes, "apply_failed_after_corruption");
+				}
+				match d.check_progress(receiver.sync.clone()) {
+					Ok(true) => {
+						done = true;
+					}
+					Ok(false) => {}
+					Err(e) => {
+						result = Some(v("check-progress-failed", format!("{:?}", e)));
+						break 'run;
+					}
+				}
+				if !done {
+					wanted = d.next_desired_segments(15);
+					if wanted.iter().any(|w| w.segment_type != SegmentType::Bitmap) {
+						bitmap_ready = true;
+					}
+					// the planner never asks for the bitmap segment of a single-leaf bitmap MMR (recorded
+					// observation, outside C16): the harness asks for it itself, as pibdsim does
+					if !bitmap_ready {
+						let bm_size = d.expected_bitmap_mmr_size();
+						for id in SegmentIdentifier::traversal_iter(bm_size, grin_chain::pibd_params::BITMAP_SEGMENT_HEIGHT) {
+							let sid = SegmentTypeIdentifier::new(SegmentType::Bitmap, id);
+							if !wanted.contains(&sid) {
+								wanted.push(sid);
+							}
+						}
+					}
+				}
+			}
+			if done {
+				break;
+			}
+			// requests leave R the way StateSync sends them
+			let peer = match sp[1].node_peer.clone() {
+				Some(p) => p,
+				None => {
+					result = Some(v("harness-peer", "no peer object".into()));
+					break 'run;
+				}
+			};
+			for w in &wanted {
+				if receiver.sync.contains_pibd_segment(w) && !faults_on {
+					// still outstanding; the real loop re-requests after 20 s - here: every round once faults are over
+				}
+				receiver.sync.add_pibd_segment(w, peer.info.addr.0);
+				let r = match w.segment_type {
+					SegmentType::Bitmap => peer.send_bitmap_segment_request(ah.hash(), w.identifier),
+					SegmentType::Output => peer.send_output_segment_request(ah.hash(), w.identifier),
+					SegmentType::RangeProof => peer.send_rangeproof_segment_request(ah.hash(), w.identifier),
+					SegmentType::Kernel => peer.send_kernel_segment_request(ah.hash(), w.identifier),
+				};
+				if let Err(e) = r {
+					result = Some(v("request-send-failed", format!("{:?}", e)));
+					break 'run;
+				}
+			}
+			if let Err(e) = barrier(&mut sp[1..2], Some(0)) {
+				result = Some(v("connection-stuck", format!("receiver, after its segment requests of round {}: {}", rounds, e)));
+				break 'run;
+			}
+			let asked = std::mem::take(&mut sp[1].inbox);
+			// the wire carries them to S; S answers
+			for m in asked {
+				let d = describe(&m);
+				let (ty, req) = match m {
+					Message::GetOutputBitmapSegment(r) => (Type::GetOutputBitmapSegment, r),
+					Message::GetOutputSegment(r) => (Type::GetOutputSegment, r),
+					Message::GetRangeProofSegment(r) => (Type::GetRangeProofSegment, r),
+					Message::GetKernelSegment(r) => (Type::GetKernelSegment, r),
+					_ => continue,
+				};
+				if faults_on && rng.chance(15, 100) {
+					bump!(out.faults, "request_lost");
+					continue;
+				}
+				bump!(out.probes, "segment_request_over_the_wire");
+				sp[0].send(ty, req);
+				if let Err(e) = barrier(&mut sp[0..1], Some(0)) {
+					result = Some(v("connection-stuck", format!("serving node, after request {} in round {}: {}", d, rounds, e)));
+					break 'run;
+				}
+				let answers = std::mem::take(&mut sp[0].inbox);
+				if sp[0].refused_frame {
+					// with AutomatedTesting's block weight of 250 the per-type frame limit is 62 KB, less than
+					// a default-height segment of a larger state: a limit of the test parameters, not of C16
+					bump!(out.probes, "segment_frame_above_test_limit_run_abandoned");
+					break 'run;
+				}
+				if answers.is_empty() {
+					result = Some(v("request-not-served", format!("round {}: the serving node did not answer {}", rounds, d)));
+					break 'run;
+				}
+				for a in answers {
+					let name = describe(&a);
+					let frame = match a {
+						Message::OutputBitmapSegment(r) => frame_of(Type::OutputBitmapSegment, r, sp[1].version),
+						Message::OutputSegment(r) => frame_of(Type::OutputSegment, r, sp[1].version),
+						Message::RangeProofSegment(r) => frame_of(Type::RangeProofSegment, r, sp[1].version),
+						Message::KernelSegment(r) => frame_of(Type::KernelSegment, r, sp[1].version),
+						_ => continue,
+					};
+					bump!(out.probes, "segment_served_over_the_wire");
+					let mut when = rounds;
+					let mut corrupted = false;
+					let mut frame = frame;
+					if faults_on {
+						let k = rng.below(100);
+						if k < 15 {
+							bump!(out.faults, "answer_lost");
+							continue;
+						} else if k < 30 {
+							bump!(out.faults, "answer_duplicated");
+							wire.push((rounds + rng.range(0, 3), name.clone(), frame.clone(), false));
+						} else if k < 45 {
+							when = rounds + rng.range(1, 4);
+							bump!(out.faults, "answer_delayed");
+						} else if k < 55 && frame.len() > 12 {
+							let i = 11 + rng.usize_below(frame.len() - 11);
+							frame[i] ^= 1 << rng.below(8);
+							corrupted = true;
+							bump!(out.faults, "answer_corrupted");
+						}
+					}
+					wire.push((when, name, frame, corrupted));
+				}
+			}
+			// what is due arrives at R, in seeded order
+			let (mut due, later): (Vec<_>, Vec<_>) = wire.drain(..).partition(|x| x.0 <= rounds);
+			wire = later;
+			rng.shuffle(&mut due);
+			for (_, name, frame, corrupted) in due {
+				if !sp[1].alive {
+					// R hung up on a frame it could not decode: the peer dials again
+					match connect_outbound(&receiver, 1 + rounds as usize, wtd, wh, Capabilities::default()) {
+						Ok(mut p) => {
+							p.slot = 1;
+							sp[1] = p;
+							bump!(out.probes, "receiver_connection_reopened");
+						}
+						Err(e) => {
+							result = Some(v("harness-connect", e));
+							break 'run;
+						}
+					}
+				}
+				out.log.push(format!("round {} -> R {}{}", rounds, name, if corrupted { " (corrupted)" } else { "" }));
+				if corrupted {
+					corrupt_delivered += 1;
+				}
+				sp[1].send_bytes(&frame);
+				if let Err(e) = barrier(&mut sp[1..2], Some(0)) {
+					result = Some(v("connection-stuck", format!("receiver, after segment delivery in round {}: {}", rounds, e)));
+					break 'run;
+				}
+				sp[1].inbox.clear();
+				if let Some(p) = take_panics().first() {
+					result = Some(v("node-thread-panicked", p.clone()));
+					break 'run;
+				}
+			}
+		}
+		out.rounds = rounds;
+		if !done {
+			result = Some(v("no-progress", format!("state sync over the wire did not complete within {} rounds ({} of them fault free)", max_rounds, max_rounds - fault_rounds)));
+			break 'run;
+		}
+		// completion, as StateSync::check_run does it
+		{
+			let guard = des.write();
+			let d = guard.as_ref().expect("desegmenter");
+			if let Err(e) = d.check_update_leaf_set_state() {
+				result = Some(v("leaf-set-update-failed", format!("{:?}", e)));
+				break 'run;
+			}
+			if let Err(e) = d.validate_complete_state(receiver.sync.clone(), Arc::new(grin_util::StopState::new())) {
+				if corrupt_delivered == 0 {
+					result = Some(v("validate-complete-state-failed", format!("honest sync over the wire: validate_complete_state failed: {:?}", e)));
+				} else {
+					bump!(out.probes, "finalization_refused_after_corruption");
+				}
+				break 'run;
+			}
+		}
+		// the state equals that of a node that processed every block up to the archive header
+		let mut reference = crate::node::Node::create(&format!("{}-ref", tag), world.genesis.clone());
+		let mut ref_err = None;
+		for id in world.path_to(archive_id) {
+			if id != 0 {
+				if let Err(e) = reference.chain().process_block(world.blocks[id].block.clone(), world.opts) {
+					ref_err = Some(format!("{:?}", e));
+					break;
+				}
+			}
+		}
+		let rd = reference.digest();
+		reference.destroy();
+		if let Some(e) = ref_err {
+			result = Some(v("reference-failed", e));
+			break 'run;
+		}
+		let d = match receiver.digest() {
+			Ok(d) => d,
+			Err(e) => {
+				result = Some(v("digest", e));
+				break 'run;
+			}
+		};
+		match rd {
+			Ok(rd) if d.same_body(&rd) => {}
+			Ok(rd) => {
+				result = Some(v("final-state-differs", format!("receiver finalized {} but a node that processed every block to the archive header is at {}", d.short(), rd.short())));
+				break 'run;
+			}
+			Err(e) => {
+				result = Some(v("reference-digest", format!("{:?}", e)));
+				break 'run;
+			}
+		}
+		let want: BTreeSet<_> = world.blocks[archive_id].ledger.keys().cloned().collect();
+		let mut got = BTreeSet::new();
+		for k in world.all_commits() {
+			let c = grin_util::secp::pedersen::Commitment::from_vec(k.to_vec());
+			if let Ok(Some(_)) = receiver.chain.get_unspent(c) {
+				got.insert(k);
+			}
+		}
+		if got != want {
+			result = Some(v("final-utxo-differs", format!("receiver's unspent set has {} entries, the ledger at the archive header {}", got.len(), want.len())));
+			break 'run;
+		}
+		if let Err(e) = receiver.chain.validate(false) {
+			result = Some(v("final-validate-failed", format!("{:?}", e)));
+			break 'run;
+		}
+		// the rest of the chain arrives as blocks over the wire (body sync would ask for them by hash)
+		receiver.sync.update(SyncStatus::NoSync);
+		if !sp[1].alive {
+			match connect_outbound(&receiver, 999, wtd, wh, Capabilities::default()) {
+				Ok(mut p) => {
+					p.slot = 1;
+					sp[1] = p;
+				}
+				Err(e) => {
+					result = Some(v("harness-connect", e));
+					break 'run;
+				}
+			}
+		}
+		for id in &path {
+			if world.blocks[*id].height > ah.height {
+				sp[1].send(Type::Block, world.blocks[*id].block.clone());
+				if let Err(e) = barrier(&mut sp[1..2], Some(0)) {
+					result = Some(v("connection-stuck", e));
+					break 'run;
+				}
+				sp[1].inbox.clear();
+			}
+		}
+		let fin = receiver.digest();
+		let srv = server.digest();
+		match (fin, srv) {
+			(Ok(a), Ok(b)) if a.same_body(&b) => {}
+			(a, b) => {
+				result = Some(v("tip-state-differs", format!("after catching up over the wire the receiver is at {:?}, the serving node at {:?}", a.map(|x| x.short()), b.map(|x| x.short()))));
+				break 'run;
+			}
+		}
+		bump!(out.probes, "sync_completed_over_the_wire");
+		break 'run;
+	}
+	let panics = take_panics();
+	if let Some(p) = panics.first() {
+		if result.as_ref().map(|r| r.key.contains("connection-stuck")).unwrap_or(true) {
+			result = Some(v("node-thread-panicked", p.clone()));
+		}
+	}
+	for p in sp.iter_mut() {
+		p.close();
+	}
+	server.shutdown();
+	receiver.shutdown();
+	drop(sp);
+	drop(server);
+	drop(receiver);
+	let _ = std::fs::remove_dir_all(&dir_s);
+	let _ = std::fs::remove_dir_all(&dir_r);
+	out.violation = result;
+	out
 }
